@@ -376,61 +376,71 @@ impl TryFrom<&[u8]> for RtpsMessageRead {
                     }
                     if let Ok(submessage_header) = SubmessageHeaderRead::try_read_from_bytes(&mut v)
                     {
-                        let mut submessage_length = submessage_header.submessage_length() as usize;
+                        let submessage_length = submessage_header.submessage_length() as usize;
                         if v.len() < submessage_length {
                             break;
                         }
-                        let submessage = match submessage_header.submessage_id() {
-                            ACKNACK => AckNackSubmessage::try_from_bytes(&submessage_header, v)
+                        // A submessage parser only ever sees the octets of its own submessage.
+                        // DDSI-RTPS 2.5 section 9.4.5.1.3: octetsToNextHeader == 0 is an empty submessage for
+                        // PAD and INFO_TS; for every other kind the submessage extends to the end of the message
+                        let submessage_id = submessage_header.submessage_id();
+                        let extent = if submessage_length == 0
+                            && submessage_id != PAD
+                            && submessage_id != INFO_TS
+                        {
+                            v.len()
+                        } else {
+                            submessage_length
+                        };
+                        let data = &v[..extent];
+                        let submessage = match submessage_id {
+                            ACKNACK => AckNackSubmessage::try_from_bytes(&submessage_header, data)
                                 .map(RtpsSubmessageReadKind::AckNack),
-                            DATA => DataSubmessage::try_from_bytes(&submessage_header, v)
+                            DATA => DataSubmessage::try_from_bytes(&submessage_header, data)
                                 .map(RtpsSubmessageReadKind::Data),
-                            DATA_FRAG => DataFragSubmessage::try_from_bytes(&submessage_header, v)
-                                .map(RtpsSubmessageReadKind::DataFrag),
-                            GAP => GapSubmessage::try_from_bytes(&submessage_header, v)
+                            DATA_FRAG => {
+                                DataFragSubmessage::try_from_bytes(&submessage_header, data)
+                                    .map(RtpsSubmessageReadKind::DataFrag)
+                            }
+                            GAP => GapSubmessage::try_from_bytes(&submessage_header, data)
                                 .map(RtpsSubmessageReadKind::Gap),
-                            HEARTBEAT => HeartbeatSubmessage::try_from_bytes(&submessage_header, v)
-                                .map(RtpsSubmessageReadKind::Heartbeat),
+                            HEARTBEAT => {
+                                HeartbeatSubmessage::try_from_bytes(&submessage_header, data)
+                                    .map(RtpsSubmessageReadKind::Heartbeat)
+                            }
                             HEARTBEAT_FRAG => {
-                                HeartbeatFragSubmessage::try_from_bytes(&submessage_header, v)
+                                HeartbeatFragSubmessage::try_from_bytes(&submessage_header, data)
                                     .map(RtpsSubmessageReadKind::HeartbeatFrag)
                             }
                             INFO_DST => {
-                                InfoDestinationSubmessage::try_from_bytes(&submessage_header, v)
+                                InfoDestinationSubmessage::try_from_bytes(&submessage_header, data)
                                     .map(RtpsSubmessageReadKind::InfoDestination)
                             }
                             INFO_REPLY => {
-                                InfoReplySubmessage::try_from_bytes(&submessage_header, v)
+                                InfoReplySubmessage::try_from_bytes(&submessage_header, data)
                                     .map(RtpsSubmessageReadKind::InfoReply)
                             }
-                            INFO_SRC => InfoSourceSubmessage::try_from_bytes(&submessage_header, v)
-                                .map(RtpsSubmessageReadKind::InfoSource),
+                            INFO_SRC => {
+                                InfoSourceSubmessage::try_from_bytes(&submessage_header, data)
+                                    .map(RtpsSubmessageReadKind::InfoSource)
+                            }
                             INFO_TS => {
-                                InfoTimestampSubmessage::try_from_bytes(&submessage_header, v)
+                                InfoTimestampSubmessage::try_from_bytes(&submessage_header, data)
                                     .map(RtpsSubmessageReadKind::InfoTimestamp)
                             }
-                            NACK_FRAG => NackFragSubmessage::try_from_bytes(&submessage_header, v)
-                                .map(RtpsSubmessageReadKind::NackFrag),
-                            PAD => PadSubmessage::try_from_bytes(&submessage_header, v)
+                            NACK_FRAG => {
+                                NackFragSubmessage::try_from_bytes(&submessage_header, data)
+                                    .map(RtpsSubmessageReadKind::NackFrag)
+                            }
+                            PAD => PadSubmessage::try_from_bytes(&submessage_header, data)
                                 .map(RtpsSubmessageReadKind::Pad),
                             _ => Err(RtpsMessageError::UnknownMessage),
                         };
                         if let Ok(submessage) = submessage {
-                            // DATA and DATA_FRAG submessages can have a length of 0 meaning use everything until the end
-                            // of the buffer
-                            if submessage_length == 0
-                                && (matches!(
-                                    submessage,
-                                    RtpsSubmessageReadKind::Data(_)
-                                        | RtpsSubmessageReadKind::DataFrag(_)
-                                ))
-                            {
-                                submessage_length = v.len();
-                            }
                             submessages.push(submessage);
                         }
 
-                        v.consume(submessage_length);
+                        v.consume(extent);
                     }
                 }
                 Ok(Self {
